@@ -1,8 +1,87 @@
-(* C10 (MessagePack half) — placeholder while the proofs are being built. *)
+(* Wmsgpack / C10 (MessagePack half).  Only statements, closed by [exact], with
+   [Print Assumptions] beneath each.  Model: Wire/Msgpack.v (enc, dec_naked, skip), tied to
+   codec/msgpack.go by harness/cmd/wiremsgpack + Wire/MsgpackCorr.v. *)
 From Coq Require Import List NArith ZArith Lia Bool.
-From Verif Require Import Base.Outcome Wire.Item Gen.Consts Wire.Msgpack Wire.MsgpackProofs.
+From Verif Require Import Base.Outcome Wire.Item Gen.Consts Wire.Msgpack Wire.MsgpackProofs Wire.MsgpackRT.
 Import ListNotations.
 
-Theorem Wmsgpack_nil_partial : forall O D rest, dec_naked D 1 (enc O INil ++ rest) = Ok (INil, rest).
-Proof. exact nil_roundtrip. Qed.
-Print Assumptions Wmsgpack_nil_partial.
+(* ---------------- wire layer ---------------- *)
+
+(* decoding an encoding (followed by anything) yields norm of the item and leaves what followed *)
+Theorem Wmsgpack_dec_enc : forall O D i rest,
+  supported i -> (Z.of_nat (depth i) < maxdepth D)%Z ->
+  goslice (len (enc O i ++ rest)) ->
+  dec_naked D (dec_fuel (enc O i ++ rest)) (enc O i ++ rest) = Ok (norm O D i, rest).
+Proof. exact dec_enc. Qed.
+Print Assumptions Wmsgpack_dec_enc.
+
+(* the skip parser (nextValueBytes) consumes exactly one encoding, from any entry depth d0 *)
+Theorem Wmsgpack_skip_enc : forall O D i rest d0,
+  supported i -> (d0 + Z.of_nat (depth i) < maxdepth D)%Z ->
+  skip_at D d0 (dec_fuel (enc O i ++ rest)) (enc O i ++ rest) = Ok rest.
+Proof. exact skip_enc. Qed.
+Print Assumptions Wmsgpack_skip_enc.
+
+(* totality: for EVERY byte list fuel 2*len+1 is never exhausted, and progress is made *)
+Theorem Wmsgpack_dec_total : forall D b, dec_naked D (dec_fuel b) b <> OutOfFuel.
+Proof. exact dec_total. Qed.
+Print Assumptions Wmsgpack_dec_total.
+
+Theorem Wmsgpack_dec_progress : forall D b i rest,
+  dec_naked D (dec_fuel b) b = Ok (i, rest) -> (length rest < length b)%nat.
+Proof. exact dec_progress. Qed.
+Print Assumptions Wmsgpack_dec_progress.
+
+Theorem Wmsgpack_skip_total : forall D d0 b, skip_at D d0 (dec_fuel b) b <> OutOfFuel.
+Proof. exact skip_total. Qed.
+Print Assumptions Wmsgpack_skip_total.
+
+Theorem Wmsgpack_skip_progress : forall D d0 b rest,
+  skip_at D d0 (dec_fuel b) b = Ok rest -> (length rest < length b)%nat.
+Proof. exact skip_progress. Qed.
+Print Assumptions Wmsgpack_skip_progress.
+
+(* depth: whatever the bytes and the fuel, at most MaxDepth frames of the recursive decoder are
+   active; no value nested MaxDepth levels or more is ever returned; MaxDepth or more nested
+   one-element arrays give exactly the depth error *)
+Theorem Wmsgpack_dec_depth_rec : forall D fuel b, (Z.of_nat (dec_maxrec D fuel b) <= maxdepth D)%Z.
+Proof. exact dec_depth_rec. Qed.
+Print Assumptions Wmsgpack_dec_depth_rec.
+
+Theorem Wmsgpack_dec_depth_val : forall D fuel b i rest,
+  dec_naked D fuel b = Ok (i, rest) -> (Z.of_nat (depth i) < maxdepth D)%Z.
+Proof. exact dec_depth_val. Qed.
+Print Assumptions Wmsgpack_dec_depth_val.
+
+Theorem Wmsgpack_dec_depth_err : forall D k, (maxdepth D <= Z.of_nat k)%Z ->
+  dec_naked D (dec_fuel (nested_arr k)) (nested_arr k) = Err EDepth.
+Proof. exact dec_depth_err. Qed.
+Print Assumptions Wmsgpack_dec_depth_err.
+
+(* the same bound for the skip parser: holds after the F14-1 repair (4080085); before it the
+   recursion of nextValueBytesBdReadR grew with the input *)
+Theorem Wmsgpack_skip_depth_rec : forall D fuel b, (Z.of_nat (skip_maxrec D fuel b) <= maxdepth D)%Z.
+Proof. exact skip_depth_rec. Qed.
+Print Assumptions Wmsgpack_skip_depth_rec.
+
+(* reader arithmetic: the parsers' readx/skip are the literal cursor arithmetic of
+   bytesDecReader, and msgpack's 32-bit lengths can never make z.c+n wrap on a Go slice *)
+Theorem Wmsgpack_readx_nowrap : forall cap n b, goslice cap -> (n < 2 ^ 32)%N -> (len b <= cap)%N ->
+  rd_readx cap n b = rd_readx_lit cap n b /\ (cursor cap b + n < 2 ^ 64)%N.
+Proof. exact msgpack_readx_nowrap. Qed.
+Print Assumptions Wmsgpack_readx_nowrap.
+
+Theorem Wmsgpack_skip_lit : forall cap n b, (len b <= cap)%N -> rd_skip n b = rd_skip_lit cap n b.
+Proof. exact rd_skip_lit_eq. Qed.
+Print Assumptions Wmsgpack_skip_lit.
+
+(* non-vacuity: a nested item with every kind of node meets the premises *)
+Example Wmsgpack_nonvacuous :
+  let O := mkeopts true false true false in
+  let D := mkdopts true false false 0 in
+  let i := IMap [(IStr [107]%N, IArr [IInt (-33); IUint 300; IF32 1069547520; IBytes [1;2]%N; INil; IBool true]);
+                 (IInt 7, ITime 1700000000 5); (IBytes [98]%N, IExt 5 [9;9;9]%N)] in
+  supported i /\ (Z.of_nat (depth i) < maxdepth D)%Z /\
+  dec_naked D (dec_fuel (enc O i)) (enc O i) = Ok (norm O D i, []) /\
+  skip D (dec_fuel (enc O i)) (enc O i) = Ok [].
+Proof. cbv zeta. repeat apply conj; vm_compute; try reflexivity; try (intro; discriminate); auto. Qed.
